@@ -34,6 +34,9 @@ func (p *Prog) newPathSources() *pathSources {
 	add(p.Field("core", "BuildLabel", "PackageName"), "BuildLabel.PackageName")
 	add(p.Field("core", "Package", "Name"), "Package.Name")
 	add(p.Field("core", "packageKey", "Name"), "packageKey.Name")
+	// the directory cache keeps its protection marks keyed by entry paths under cache.Dir
+	add(p.Field("cache", "dirCache", "Dir"), "dirCache.Dir")
+	add(p.Field("cache", "dirCache", "added"), "dirCache.added keys")
 	if parse := p.Field("core", "Configuration", "Parse"); parse != nil {
 		if st, ok := parse.Type().Underlying().(*types.Struct); ok {
 			for i := 0; i < st.NumFields(); i++ {
@@ -336,6 +339,32 @@ func checkC20(p *Prog, r *Report) {
 	p.patternReturnRule(r)
 	p.subrepoCarriedRule(r)
 	p.includesOperandRule(r)
+	p.blacklistNotDerivedRule(r)
+}
+
+// blacklistNotDerivedRule: the BUILD-file walker matches blacklist entries by base name as well as by path (an entry
+// `test` prunes every directory called test). That is the documented meaning of a *configured* entry; a value derived
+// from a label pattern (//test/...) means one directory only, so nothing may append pattern-derived values to
+// Config.Parse.BlacklistDirs.
+func (p *Prog) blacklistNotDerivedRule(r *Report) {
+	rule := "E7.blacklist-is-configuration-only"
+	n := 0
+	for _, f := range p.allFuncs {
+		if !strings.HasPrefix(fnPkg(f), modPath+"/src/") {
+			continue
+		}
+		eachInstr(f, false, func(_ *ssa.Function, i ssa.Instruction) {
+			st, ok := i.(*ssa.Store)
+			if !ok || !strings.HasSuffix(fieldKey(st.Addr), ".BlacklistDirs") {
+				return
+			}
+			n++
+			r.bad(rule, "Config.Parse.BlacklistDirs is written at run time", p.pos(st.Pos()), fnName(f), "code appends to the configured blacklist (e.g. the package of an --exclude //p/... pattern): the walker matches blacklist entries by base name too, so every directory called p anywhere in the tree is pruned and `//...` no longer selects those packages")
+		})
+	}
+	if n == 0 {
+		r.ok(rule, "the blacklist is only ever set by reading configuration", "-", "", "no store to Parse.BlacklistDirs in the repository's own code")
+	}
 }
 
 // includesOperandRule: BuildLabel.Includes compares a pattern (receiver) with a concrete label or package
@@ -618,6 +647,7 @@ func checkC22(p *Prog, r *Report) {
 		}
 	}
 	p.runPrefixRule(r, "E1.prefixbound", all, 2)
+	p.blacklistNotDerivedRule(r)
 	// prune conditions
 	rule := "E5.walk-prunes"
 	var cb *ssa.Function
